@@ -25,7 +25,9 @@ def c17_response_step(ctx, v):
          the same response cannot be accepted twice;
       C  V false or no outstanding challenge  =>  the peer is not newly Connected by this call;
       D  Ok / newly Connected  =>  the responder's core version is set and equals this node's in
-         major and minor (this node's wallet version symbolic)."""
+         major and minor (this node's wallet version symbolic);
+      E  Ok / newly Connected  =>  the entry was not already known by a different key (in any
+         status — a surviving entry that reconnects is Connecting, not Connected)."""
     ex = ctx.executor(loop_bound=3, inline="auto", max_paths=4000, no_inline=[r"::serialize$", r"get_my_services$"])
     ch, ch_val = _opt(ex, "challenge_for_peer", "[u8; 32]")
     pk, pk_val = _opt(ex, "peer.public_key", "[u8; 33]")
@@ -112,6 +114,8 @@ def c17_response_step(ctx, v):
             ("C: a rejected response (bad signature / no challenge) leaves the peer newly Connected", z3.And(z3.Not(authenticated), newly)),
             ("D: Ok is returned / the peer is newly Connected although the responder's core version is unset or differs from this node's in major or minor",
              z3.And(z3.Or(is_ok, newly), z3.Not(compatible))),
+            ("E: Ok is returned / the peer is newly Connected although this entry is already known by a DIFFERENT key (the node keeps resolving the old key to this connection, which that key never authenticated)",
+             z3.And(z3.Or(is_ok, newly), enum_is(ex, pk, "Some"), z3.Not(value_eq(ex, pk_val, r_pk)))),
         ]
         for what, bad in checks:
             r, m = ex.model_for(o.pc, bad)
